@@ -35,6 +35,9 @@ PLANS = {
                 max_workers=5, selftest=4, timeout=7000, deadline=7200),
             leg('R', 'R', 60, opts={'events': 14}, weight=2, max_workers=3,
                 selftest=2, timeout=7000, deadline=7200),
+            # real XLA meshes beyond 8 devices (all (z,x,y) with product <= 16)
+            leg('X16', 'X', 40, opts={'ops': 8, 'p_model': 0.15, 'max_devices': 16},
+                devices=16, max_workers=2, selftest=1, timeout=7000, deadline=7200),
         ],
         'rule': (
             'Each evaluation is one seeded simulated run: a drawn (z,x,y) mesh '
